@@ -1500,6 +1500,9 @@ func ruleSCANALL(w *World, r *Report) {
 					if scan.body[s] {
 						continue
 					}
+					if endsInPanic(s) {
+						continue // an abort is not an end of the scan
+					}
 					exits++
 					iff, ok := last.(*ssa.If)
 					if !ok {
@@ -1609,6 +1612,14 @@ func posProblem(w *World, v ssa.Value, at *ssa.BasicBlock, depth int, trustDefau
 	}
 	if known(newRC().eval(v, at)) {
 		return ""
+	}
+	// a field of a local options struct normalised in place: `if o.f <= 0 { o.f = V }` before the use
+	if ld, ok := v.(*ssa.UnOp); ok && ld.Op == token.MUL {
+		if fa, ok := ld.X.(*ssa.FieldAddr); ok {
+			if cell, ok := fa.X.(*ssa.Alloc); ok && normalisedInPlace(w, cell, fa.Field, ld, depth, trustDefault) {
+				return ""
+			}
+		}
 	}
 	// a field of an options struct that a module function returned after normalising it:
 	// `o := options.withDefaults()` ... o.NumGoroutines
@@ -1798,6 +1809,87 @@ func fieldNormalised(w *World, g *ssa.Function, field int, depth int, trustDefau
 				}
 			}
 			if all {
+				return true
+			}
+		}
+	}
+	return false
+}
+
+// endsInPanic: from block b every path runs, without branching, into a panic.
+func endsInPanic(b *ssa.BasicBlock) bool {
+	for k := 0; k < 4; k++ {
+		if len(b.Instrs) == 0 {
+			return false
+		}
+		if _, ok := b.Instrs[len(b.Instrs)-1].(*ssa.Panic); ok {
+			return true
+		}
+		if len(b.Succs) != 1 {
+			return false
+		}
+		b = b.Succs[0]
+	}
+	return false
+}
+
+// normalisedInPlace: field `field` of the local struct cell is >= 1 at instruction use: the only
+// store to that field has a value known >= 1 and sits on the `field <= 0` (or `< 1`) edge of an If
+// that dominates use, and every store of a whole struct into the cell comes before that If.
+func normalisedInPlace(w *World, cell *ssa.Alloc, field int, use ssa.Instruction, depth int, trustDefault bool) bool {
+	var stores []*ssa.Store
+	var whole []*ssa.Store
+	for _, ref := range referrersOf(cell) {
+		switch x := ref.(type) {
+		case *ssa.FieldAddr:
+			if x.Field != field {
+				continue
+			}
+			for _, r2 := range referrersOf(x) {
+				if st, ok := r2.(*ssa.Store); ok && st.Addr == ssa.Value(x) {
+					stores = append(stores, st)
+				}
+			}
+		case *ssa.Store:
+			if x.Addr == ssa.Value(cell) {
+				whole = append(whole, x)
+			}
+		}
+	}
+	if len(stores) != 1 {
+		return false
+	}
+	st := stores[0]
+	if posProblem(w, st.Val, st.Block(), depth+1, trustDefault) != "" {
+		return false
+	}
+	for _, f := range domFacts(st.Block()) {
+		for _, cm := range factCmps(f) {
+			if cm.Y == nil {
+				continue
+			}
+			ld, ok := stripAllConv(cm.X).(*ssa.UnOp)
+			if !ok || ld.Op != token.MUL {
+				continue
+			}
+			fa, ok := ld.X.(*ssa.FieldAddr)
+			if !ok || fa.X != ssa.Value(cell) || fa.Field != field {
+				continue
+			}
+			k, isC := constInt(cm.Y)
+			if !isC || !((cm.Op == token.LEQ && k == 0) || (cm.Op == token.LSS && k == 1)) {
+				continue
+			}
+			if !instrDominates(f.If, use) {
+				continue
+			}
+			okWhole := true
+			for _, ws := range whole {
+				if !instrDominates(ws, f.If) {
+					okWhole = false
+				}
+			}
+			if okWhole {
 				return true
 			}
 		}
